@@ -327,6 +327,8 @@ class Scenario:
         self.face.local = self.local
         self.nstat = variant
         self.ngarb = variant
+        self.fresh_loops = variant % 2 == 0        # every second scenario: a new event loop per connection
+        self.loop_errors = []
         # Two applications live in the process, each with its own face, both built the DEFAULT way (appv2: no
         # registerer argument, so client_conf.default_registerer() is used). The second one is a bystander: it is
         # connected together with the first and never asked to do anything - every command of the application under
@@ -401,7 +403,26 @@ class Scenario:
                 self.wire_errors.append((e.check, str(e), w.hex()))
 
     # ---- stimuli
+    def _fresh_loop(self):
+        """A later connection runs in a NEW event loop, as NDNApp.run_forever() does (asyncio.run per connection): whatever
+        the application object keeps from the previous connection must not be tied to the loop that is gone. Only when the
+        old loop has nothing left to run (every call and both main_loops have returned)."""
+        old = self.sess.loop
+        import asyncio
+        if any(not t.done() for t in asyncio.all_tasks(old)):
+            return False
+        self.loop_errors += [str(c.get('exception') or c.get('message')) for c in old.errors]
+        t = old.time()
+        self.sess.__exit__(None, None, None)
+        self.sess = Session(start=t)
+        self.sess.__enter__()
+        _time.time = self._now
+        return True
+
     def connect(self, d=0):
+        self.nconn = getattr(self, 'nconn', 0) + 1
+        if self.nconn > 1 and self.fresh_loops:
+            self._fresh_loop()
         async def run_main():
             try:
                 await self.app.main_loop()
@@ -500,7 +521,7 @@ class Scenario:
                 'res': [self.res.get(c, 'none') for c in range(1, self.ncalls + 1)]}
 
     def background_errors(self):
-        return [str(c.get('exception') or c.get('message')) for c in self.sess.loop.errors]
+        return self.loop_errors + [str(c.get('exception') or c.get('message')) for c in self.sess.loop.errors]
 
 
 # ------------------------------------------------------------------ belief-set walk over a TLC graph
